@@ -1473,6 +1473,13 @@ func (ss *ServerSession) handleRequestInner(sc *ServerConn, req *base.Request) (
 					ss.propsMutex.Lock()
 					ss.state = ServerSessionStatePreRecord
 					ss.propsMutex.Unlock()
+
+					// connections that are waiting for a request have no read deadline
+					// while the session is recording: restore it, otherwise a silent
+					// connection (and the session with it) is never closed.
+					for sc := range ss.conns {
+						sc.nconn.SetReadDeadline(time.Now().Add(ss.s.IdleTimeout))
+					}
 				}
 			}
 		}
